@@ -26,6 +26,7 @@ pub fn prop() -> Prop {
         subs: vec![
             Sub { name: "trees", run: run_trees, replay: |j| replay_with::<M>(j, check) },
             Sub { name: "sweep", run: run_sweep, replay: |j| replay_with::<M>(j, check) },
+            Sub { name: "numbers", run: run_numbers, replay: |j| replay_with::<M>(j, check) },
         ],
     }
 }
@@ -244,13 +245,20 @@ fn run_trees(ctx: &mut Ctx) {
 }
 
 fn run_sweep(ctx: &mut Ctx) {
-    let mut cps: Vec<u32> = (0u32..=0x9F).collect();
-    cps.extend([0x7FF, 0x800, 0x2028, 0x2029, 0xD7FF, 0xE000, 0xFFFD, 0xFFFE, 0xFFFF, 0x10000, 0x1F48E, 0x10FFFF]);
+    // every BMP scalar value (exhaustive), and the astral planes on a stride plus their ends
+    let stride = ctx.tier.pick(61u32, 7u32);
+    let mut cps: Vec<u32> = (0u32..=0xFFFF).filter(|c| !(0xD800..=0xDFFF).contains(c)).collect();
+    cps.extend((0x10000u32..=0x10FFFF).step_by(stride as usize));
+    cps.extend((1u32..=16).flat_map(|p| [p * 0x10000, p * 0x10000 + 0xFFFF]));
+    ctx.extra.insert("sweep_exhaustive_bmp".into(), serde_json::json!(true));
     for (i, cp) in cps.iter().enumerate() {
         if i % ctx.nworkers != ctx.worker || ctx.failure.is_some() {
             continue;
         }
-        let c = char::from_u32(*cp).unwrap();
+        let c = match char::from_u32(*cp) {
+            Some(c) => c,
+            None => continue,
+        };
         let s = format!("a{c}b");
         let mut o = BTreeMap::new();
         o.insert(s.clone(), M::Str(s.clone()));
@@ -262,6 +270,57 @@ fn run_sweep(ctx: &mut Ctx) {
                 Ok(Err(m)) => ctx.fail("sweep", d.to_j(), m),
                 Err(p) => ctx.fail("sweep", d.to_j(), format!("unexpected {}", p.describe())),
             }
+        }
+    }
+}
+
+
+/// number renderings on their own: f32-exact doubles on a stride through all 2^32 patterns,
+/// integer and float edges, powers of ten and two, in three positions
+fn run_numbers(ctx: &mut Ctx) {
+    let stride: u64 = ctx.tier.pick(16381, 257);
+    let mut nums: Vec<N> = vec![];
+    let total: u64 = 1 << 32;
+    let per = total / ctx.nworkers as u64;
+    let lo = per * ctx.worker as u64;
+    let hi = if ctx.worker + 1 == ctx.nworkers { total } else { lo + per };
+    let mut x = lo + (stride - lo % stride) % stride;
+    while x < hi {
+        let f = f32::from_bits(x as u32) as f64;
+        if f.is_finite() {
+            nums.push(N::F(f));
+        }
+        nums.push(N::I(x as u32 as i32 as i64 * 1_000_003));
+        x += stride;
+    }
+    if ctx.worker == 0 {
+        nums.extend(i64_edges().into_iter().map(N::I));
+        nums.extend(u64_edges().into_iter().map(N::U));
+        nums.extend(f64_edges().into_iter().filter(|f| f.is_finite()).map(N::F));
+        for e in -330..=308 {
+            nums.push(N::F(format!("1e{e}").parse().unwrap()));
+            nums.push(N::F(format!("-9.999999999999999e{e}").parse::<f64>().unwrap()));
+        }
+        for e in 0..64 {
+            nums.push(N::U(1u64 << e));
+            nums.push(N::F((1u64 << e) as f64 + 0.5));
+        }
+    }
+    nums.retain(|n| n.is_finite());
+    for (k, n) in nums.iter().enumerate() {
+        if ctx.failure.is_some() {
+            break;
+        }
+        let d = match k % 3 {
+            0 => M::Num(*n),
+            1 => M::Arr(vec![M::Str("x".into()), M::Num(*n)]),
+            _ => M::Obj([("k".to_string(), M::Num(*n))].into_iter().collect()),
+        };
+        let mut obs = Obs::default();
+        match guard(|| check(&d, &mut obs)) {
+            Ok(Ok(())) => ctx.record(|| d.to_j(), &obs),
+            Ok(Err(m)) => ctx.fail("numbers", d.to_j(), m),
+            Err(p) => ctx.fail("numbers", d.to_j(), format!("unexpected {}", p.describe())),
         }
     }
 }
